@@ -21,7 +21,7 @@ from contextlib import contextmanager
 from pathlib import Path
 
 ROOT = Path(__file__).resolve().parents[1]
-LEAN = ROOT / 'lean'
+LEAN = Path(os.environ.get('VERIF_LEAN_DIR') or (ROOT / 'lean'))
 REPO = Path(os.environ.get('VERIF_REPO', '/repo'))
 PY = os.environ.get('VERIF_PYTHON', '/venv/bin/python')
 GUARD = 'PYTABLEAUX_VERIF'
